@@ -33,6 +33,9 @@ def explore(h, prog, cap):
     while stack and len(res) < cap:
         e = stack.pop()
         err, vals, io, pts = E.observe_impl(h, prog, e)
+        # the property speaks of the resulting type, ITS residual bounds and ITS
+        # residual constraints: canonicalise from the result value alone
+        io = dict(io, result=E.canon(E.snap_impl(h, vals[-1:])) if err is None and vals else None)
         res.append((e, err, io, pts))
         for k in range(len(e), len(pts)):
             for c in range(1, math.factorial(min(pts[k], 4))):
@@ -43,7 +46,11 @@ def explore(h, prog, cap):
 def outcome_key(io):
     if io["err"] is not None:
         return ("err", E.ERRNAME.get(io["err"][0], str(io["err"][0])))
-    return ("ok", repr(io["vals"][-1]), repr(io["vars"]), repr(io["cons"]))
+    r = io["result"]
+    # "residual constraints as a set": alternatives of a constraint are a set too
+    cons = sorted(repr((k, st, dn, ref, tuple(sorted(set(map(repr, alts))))))
+                  for k, st, dn, ref, alts in r["cons"])
+    return ("ok", repr(r["vals"]), repr(r["vars"]), repr(cons))
 
 
 def judge(rep, h, prog, runs, tag):
